@@ -203,7 +203,9 @@ func fsStartSim(r *simcore.Run) {
 		return
 	}
 	if startErr != nil {
-		r.Fail("infra", "start", "%v", startErr)
+		// every version written was a complete rule set: whatever the writer did in between (replace, remove, move),
+		// starting on such a source has to succeed
+		r.Fail("provider-does-not-start-on-a-valid-source", "file_system/change-during-start", "Start failed although only complete rule sets were written (%v): %v", opsLog, startErr)
 		return
 	}
 	r.Logf("writer: %v", opsLog)
